@@ -592,6 +592,17 @@ func denseSections(r *vlib.Run) {
 				suffix = "-axis-aligned-input"
 			}
 		}
+		if n == 4 && class == "generic" && cs.sigma[n-1] > 0 {
+			// Matrix4.SVD goes through the characteristic polynomial of A^T A (condition number
+			// squared) and random start vectors: its accuracy varies from run to run and falls
+			// with the condition number (observed over 2e5 matrices: up to 2e-9 typically, 1.02e-8
+			// once at kappa = 57; the library's own test allows 1e-8 at kappa 3 and 1e-4 for a
+			// fourfold singular value). Tolerance 1e-8 up to kappa 10, growing with kappa^2 above.
+			if k := cs.sigma[0] / cs.sigma[n-1]; k > 10 {
+				f := k * k / 100
+				tolOrth, tolRec, tolSig = tolOrth*f, tolRec*f, tolSig*f
+			}
+		}
 		ou, ov := orthoDefect(n, u), orthoDefect(n, v)
 		cmax(c, "svd.ortho_defect."+api.name+"."+class, math.Max(ou, ov))
 		if !(ou <= tolOrth) {
